@@ -25,12 +25,19 @@ LEAN_TARGETS = ["NfcVerif.Props.C12", "drv_c12"]
 THEOREMS = [
     "NfcVerif.C12.isodep_at_most_once",
     "NfcVerif.C12.isodep_response_exact",
+    "NfcVerif.C12.isodep_session_inv",
+    "NfcVerif.C12.isodep_session_exact",
+    "NfcVerif.C12.isodep_session_from_activation",
+    "NfcVerif.C12.isodep_refuses_after_error",
+    "NfcVerif.C12.isodep_error_sets_flag",
     "NfcVerif.C12.isodep_send_apdu_exact",
     "NfcVerif.C12.isodep_error_kind",
+    "NfcVerif.C12.isodep_terminates",
+    "NfcVerif.C12.isodep_error_kind_iso",
+    "NfcVerif.C12.isodep_absorbs",
+    "NfcVerif.C12.isodep_absorbs_bound_tight",
     "NfcVerif.C12.isodep_block_bound",
     "NfcVerif.C12.isodep_block_bound_derived",
-    "NfcVerif.C12.isodep_stale_after_error_reachable",
-    "NfcVerif.C12.isodep_stale_after_error_counterexample",
     "NfcVerif.C12.fsc_fwt_derivation",
 ]
 
@@ -78,7 +85,9 @@ def activate(cfg, script, sims, tt4, clfmod):
 def run_real(cfg, script, cmds, sims, tt4, clfmod):
     tag, air, card = activate(cfg, script, sims, tt4, clfmod)
     results = []
+    air.marks = []           # number of blocks sent before each command
     for c in cmds:
+        air.marks.append(len(air.trace))
         try:
             if c is None:
                 tag._dep.exchange(None)
@@ -90,8 +99,10 @@ def run_real(cfg, script, cmds, sims, tt4, clfmod):
     return tag, air, card, results
 
 
-def canon(results, pni, trace, log, bn):
-    return "%s | %d | %s | %s | %d" % (";".join(results), pni, ",".join(hx(b) for b in trace) or ".",
+def canon(results, dep, trace, log, bn):
+    errno = getattr(dep, "errno", None)
+    pni = "%d/%s" % (dep.pni, "none" if errno is None else "%d" % errno)
+    return "%s | %s | %s | %s | %d" % (";".join(results), pni, ",".join(hx(b) for b in trace) or ".",
                                        ",".join(hx(b) for b in log) or ".", bn)
 
 
@@ -127,8 +138,8 @@ def run(ck):
         "a misbehaving card is out of scope except for the exception-class theorem, which holds for every card",
         "clf.exchange reports a lost block as TimeoutError, a corrupted one as TransmissionError (the card stays mute on a "
         "corrupted block), and may raise ProtocolError or return an empty frame",
-        "the card and the reader are in step when an exchange starts (true after activation and after every successful "
-        "exchange; after a failed exchange only the weaker at-most-once statement is claimed)",
+        "a session starts with an activation (PCD block number 0, PICC block number 1); nothing is assumed about how "
+        "earlier exchanges of the session ended",
         "the model functions equal the Python functions outside the compared inputs (D-tie: exhaustive where stated, sampled beyond)",
     ]
     ck.trusted += ["hand-written Lean model NfcVerif.Model.IsoDep, tied by differential runs",
@@ -148,7 +159,7 @@ def run(ck):
         tag, air, card, results = run_real(cfg, script, cmds, sims, tt4, nfc.clf)
         dep = tag._dep
         trace = [b for b, _ in air.trace]
-        real = canon(results, dep.pni, trace, card.log, card.bn)
+        real = canon(results, dep, trace, card.log, card.bn)
         used = script[:air.pos]
         chained = any(c is not None and len(c) > dep.miu for c in cmds) or cfg.rlen + 2 > cfg.chunk
         nontrivial = air.faults_used > 0 or chained or card.wtx_sent > 0
@@ -166,7 +177,7 @@ def run(ck):
             if len(b) + 2 > fsc:
                 ck.fail("isodep-block-exceeds-fsc", "block %s (%d+2 octets) exceeds FSC %d" % (b.hex(), len(b), fsc), replay)
         real_cmds = [bytes(c) for c in cmds if c]
-        first_fail = next((j for j, r in enumerate(results) if r.startswith("exc") and cmds[j] is not None), len(cmds))
+        first_fail = next((j for j, r in enumerate(results) if r.startswith("exc TagCommandError") and cmds[j]), len(cmds))
         for entry in card.log:
             if entry not in real_cmds:
                 # within one exchange this never happens; after a failed chained exchange the card still holds
@@ -200,6 +211,12 @@ def run(ck):
                     key = "isodep-wtx-raw-exception" if card.wtx_sent > 0 else "isodep-raw-exception"
                     ck.fail(key, "transceive(%s) raised %s" % (c.hex(), name), replay)
                 failed_before = True
+        # after an unrecoverable error no further command may reach the card (block numbers are undefined)
+        marks = air.marks + [len(air.trace)]
+        for j in range(first_fail + 1, len(cmds)):
+            if cmds[j] is not None and (marks[j + 1] != marks[j] or results[j] != results[first_fail]):
+                ck.fail("isodep-command-after-error", "command %d sent %d block(s) and ended in %r after command %d had failed with %r"
+                        % (j, marks[j + 1] - marks[j], results[j], first_fail, results[first_fail]), replay)
         # absorbed faults: k errors in one retry loop need 2k-1 <= n_retry (a retransmission after R(ACK) also counts)
         if len(cmds) == 1 and cmds[0] and "p" not in used \
                 and 2 * air.faults_used - 1 <= dep.n_retry_nak and not results[0].startswith("ok"):
@@ -344,7 +361,7 @@ def run(ck):
             res = "ok " + hx(r)
         except Exception as e:  # noqa
             res = "exc " + exc_name(e)
-        real = canon([res], tag._dep.pni, [b for b, _ in air.trace], card.log, card.bn)
+        real = canon([res], tag._dep, [b for b, _ in air.trace], card.log, card.bn)
         line = "apdu %d %d %d %s %s %d %d %d %d %d %s %d %d" % (
             tag._dep.miu, tag._dep.n_retry_nak, tag._dep.n_retry_ack, cfg.card_words(), script or "-",
             int(ext), cla, ins, p1, p2, hx(data), mrl, int(check))
@@ -372,9 +389,72 @@ def run(ck):
                 if bytes.fromhex(res[3:].replace("-", "")) != want or (check and full[-2:] != b"\x90\x00"):
                     ck.fail("isodep-wrong-response", "send_apdu returned %s for card response %s" % (res, full.hex()), replay)
 
+    # ------------------------------------------------------------------ any card: scripted answers that follow no rule
+    raw_reqs = []
+    for _ in range(6000 if ck.thorough else 1500):
+        fsci = rng.randrange(9)
+        fwi = rng.choice([4, 9, 10, 11, 12])
+        cfg = Cfg(rng.choice("AB"), fsci, fwi)
+        miu = FSC_TABLE[fsci] - 3
+        replies = []
+        pn = 0
+        for _ in range(rng.randrange(0, 9)):
+            k = rng.random()
+            bn = pn if rng.random() < 0.7 else pn ^ 1
+            if k < 0.30:
+                more = rng.random() < 0.3
+                replies.append(bytes([(0x12 if more else 0x02) | bn]) + bytes(rng.randrange(256) for _ in range(rng.randrange(0, 4))))
+                pn ^= 1
+            elif k < 0.45:
+                replies.append(bytes([0xA2 | bn]))
+                if bn == pn:
+                    pn ^= 1
+            elif k < 0.52:
+                replies.append(bytes([0xB2 | bn]))
+            elif k < 0.66:
+                replies.append(rng.choice([b"\xf2\x01", b"\xf2", b"\xf3\x3b", b"\xf2\x01\x02", b"\xf2\xff"]))
+            elif k < 0.74:
+                replies.append(b"")
+            elif k < 0.82:
+                replies.append(None)
+            else:
+                replies.append(bytes(rng.randrange(256) for _ in range(rng.randrange(1, 4))))
+        ncmd = rng.choice([1, 1, 2])
+        cmds = [make_cmd(rng, rng.choice([1, 2, miu, miu + 1, 2 * miu + 1]), 0xA0 + j) for j in range(ncmd)]
+        card = sims.ScriptCard(replies)
+        air = sims.Air(card, "", 256, 256)
+        if cfg.kind == "A":
+            air.ats = bytes([5, 0x70 | fsci, 0x80, (fwi << 4), 0x02])
+            tag = tt4.Type4ATag(air, nfc.clf.RemoteTarget("106A", sens_res=bytearray(b"\x44\x03"), sel_res=bytearray(b"\x20"),
+                                                         sdd_res=bytearray(b"\x04\x01\x02\x03\x04\x05\x06")))
+        else:
+            tag = tt4.Type4BTag(air, nfc.clf.RemoteTarget("106B", sensb_res=bytearray(
+                [0x50, 1, 2, 3, 4, 0, 0, 0, 0, 0, (fsci << 4) | 1, fwi << 4])))
+        results = []
+        for c in cmds:
+            try:
+                results.append("ok " + hx(tag.transceive(bytearray(c))))
+            except Exception as e:  # noqa
+                results.append("exc " + exc_name(e))
+        dep = tag._dep
+        errno = getattr(dep, "errno", None)
+        real = "%s | %d/%s | %s" % (";".join(results), dep.pni, "none" if errno is None else "%d" % errno,
+                                    ",".join(hx(b) for b, _ in air.trace) or ".")
+        line = "raw %d %d %d %s %s" % (dep.miu, dep.n_retry_nak, dep.n_retry_ack,
+                                       ",".join("x" if r is None else hx(r) for r in replies) or ".", ",".join(hx(c) for c in cmds))
+        replay = {"card_answers": [None if r is None else r.hex() for r in replies], "commands": [c.hex() for c in cmds],
+                  "fsci": fsci, "fwi": fwi, "kind": cfg.kind, "impl": real}
+        raw_reqs.append((line, real, replay))
+        ck.case(("raw", fsci, fwi, tuple(replies), tuple(cmds)), len(replies) > 0, "rule-less card")
+        for c, r in zip(cmds, results):
+            if r.startswith("exc") and r[4:] not in ("TagCommandError(0)", "TagCommandError(-1)", "TagCommandError(-2)"):
+                ck.fail("isodep-raw-exception-any-card", "transceive(%s) raised %s against a card answering %s"
+                        % (c.hex(), r[4:], replay["card_answers"]), replay)
+
     # ------------------------------------------------------------------ compare with the model
     for name, batch, exh in (("activation parameters (FSCI x FWI x device limit x A/B)", act_reqs, True),
-                             ("exchange under fault scripts", reqs, False), ("send_apdu", apdu_reqs, False)):
+                             ("exchange under fault scripts", reqs, False), ("send_apdu", apdu_reqs, False),
+                             ("rule-less card (scripted answers)", raw_reqs, False)):
         replies = model.ask_many([r[0] for r in batch])
         dis = 0
         for (line, real, replay), rep in zip(batch, replies):
